@@ -82,6 +82,8 @@ void COLssInit (CO_LSS *lss, CO_NODE *node)
     lss->CfgBaudrate = 0;
     lss->CfgNodeId   = 0;
     lss->Step        = CO_LSS_SEL_VENDOR;
+    lss->RemStep     = CO_LSS_REM_VENDOR;
+    lss->ActStep     = 0;
 
     for (subidx = 1; subidx <= 4; subidx++) {
         obj = CODictFind(&node->Dict, CO_DEV(0x1018, subidx));
@@ -230,15 +232,15 @@ static void CO_LssActivateBitTiming_SwitchDelay (void *arg)
 
     lss = (CO_LSS *)arg;
 
-    if (lss->Step == 1) {
+    if (lss->ActStep == 1) {
         COIfCanInit(&lss->Node->If, lss->Node);
         COIfCanEnable(&lss->Node->If, lss->CfgBaudrate);
-        lss->Step = 2;
+        lss->ActStep = 2;
     } else {
         CONmtSetMode(&lss->Node->Nmt, CO_PREOP);
         COTmrDelete(&lss->Node->Tmr, lss->Tmr);
         lss->Tmr  = -1;
-        lss->Step = 0;
+        lss->ActStep = 0;
     }
 }
 
@@ -274,8 +276,8 @@ int16_t COLssConfigureBitTiming(CO_LSS *lss, CO_IF_FRM *frm)
     baudId = CO_GET_BYTE(frm, 2);
     if (table == 0) {
         if (baudId < CO_LSS_MAX_BAUD) {
-            lss->CfgBaudrate = CO_LssBaudTbl[baudId];
-            if (lss->CfgBaudrate != 0) {
+            if (CO_LssBaudTbl[baudId] != 0) {
+                lss->CfgBaudrate = CO_LssBaudTbl[baudId];
                 error_code = 0;
             }
         }
